@@ -40,7 +40,7 @@ HAZARDS = [
     # constant propagation
     'call_out', 'call_inout', 'loop_carried', 'accumulator', 'accumulator_varbound', 'cond_assign_in_loop',
     'save_init', 'while_literal_counter', 'select_assign', 'associate_alias', 'zero_trip_const',
-    'zero_trip_inner', 'exit_in_loop', 'cycle_in_loop', 'real_kind_fold', 'internal_present',
+    'zero_trip_inner', 'exit_in_loop', 'cycle_in_loop', 'real_kind_fold', 'internal_present', 'unroll_cycle', 'unroll_exit',
     'stale_second_pass', 'mixed_case_redef', 'member_basename', 'pointer_alias', 'neg_step_unroll',
     'while_zero_trip_assign', 'param_array_2d', 'nested_loop_prologue_outer', 'int_div_neg', 'array_const_elems',
     'simp_int_quot_sum', 'simp_int_quot_product', 'simp_int_quot_like_terms', 'simp_real_div_literal',
@@ -729,6 +729,10 @@ class CPGen:
             s = ['hz1 = 1', 'do i = 1, 4', '  if (k1 + i > 3) exit', '  hz1 = 2', 'end do', f'oi({T1}) = hz1']
         elif hz == 'cycle_in_loop':
             s = ['hz1 = 1', 'do i = 1, 4', '  if (k1 + i > -100) cycle', '  hz1 = 2', 'end do', f'oi({T1}) = hz1']
+        elif hz == 'unroll_cycle':
+            s = ['hz2 = k1', 'do i = 1, 3', '  if (k1 + i > 2) cycle', '  hz2 = hz2 + i', 'end do', f'oi({T1}) = hz2']
+        elif hz == 'unroll_exit':
+            s = ['hz2 = k1', 'do i = 1, 3', '  if (k1 + i > 2) exit', '  hz2 = hz2 + i', 'end do', f'oi({T1}) = hz2']
         elif hz == 'real_kind_fold':
             s = ['hzr = 0.1_8', f'orr({R1}) = hzr*3.0_8 + x1', f'orr({R2}) = 1.0_8 / 3.0_8 + hzr']
         elif hz == 'internal_present':
